@@ -787,7 +787,10 @@ def stream_full(ctx):
                     'fully sampled strata (k = n everywhere, MEV partition fully sampled): log likelihood of '
                     'GenerateModel.get_logit / get_nested_logit / get_cross_nested_logit on the sample vs models.loglogit / '
                     'lognested / logcnl on the full choice set, per individual, through the engine (relative 1e-9) and vs a direct '
-                    'evaluation; the get_logit tree vs the Gallina builder (expr_eqb in Coq); non-trivial = at least 2 strata '
+                    'evaluation; the get_logit tree vs the Gallina builder (expr_eqb in Coq); plus (mevdup) a PARTIAL MEV sample whose strata '
+                    'hold copies of one alternative inside the same nests, where the weighted MEV sums are exact, and (partial) strata not '
+                    'fully sampled where the engine value of get_logit is compared with the closed form of the corrected logit; '
+                    'non-trivial = at least 2 strata '
                     'or a combined variable or a nest structure; distinct by full case')
     rng = ctx.sub_rng('full')
     cases = load_corpus('full')
